@@ -268,7 +268,8 @@ class Scenario:
     """A workflow + the environment script."""
 
     def __init__(self, doc, script=None, outmode=None, stages=None, extra_files=None, name='', do_restart_sources=None,
-                 exit_files=None):
+                 exit_files=None, memo=None):
+        self.memo = memo or {}
         self.doc = doc
         self.script = script or {}
         self.outmode = outmode or {}
@@ -309,6 +310,48 @@ def reset_class_state():
     H.exit_files = None
 
 
+class FakeCDB:
+    """Stand-in for the component database: `memo` maps a component reference to 'hit' (a past execution with the same
+    memoization hash exists and its files can be fetched) or 'fetch-fails' (it exists but fetching its files raises)."""
+
+    def __init__(self, memo, comps):
+        self.memo = dict(memo)
+        self.by_hash = {}
+        for c in comps:
+            ref = c.specification.reference
+            if ref in self.memo:
+                hs = c.memoization_hash
+                if hs is None:
+                    raise HarnessError('no memoization hash for %s: the memoization scenario is vacuous' % ref)
+                self.by_hash[hs] = ref
+
+    def cdb_get_document_component(self, query=None, _api_verbose=False, **kw):
+        hs = (query or {}).get('memoization-hash')
+        ref = self.by_hash.get(hs)
+        ev('cdb-query', ref=ref)
+        if ref is None:
+            return []
+        return [{'location': '/nonexistent/past/%s' % ref, 'instance': 'file://past/pkg-2029-12-31T235959.000000.instance',
+                 'stage': 0, 'name': 'past-' + ref.split('.', 1)[1], 'memoization-hash': hs}]
+
+    def cdb_query_component_files_exist(self, instance_uri, stage_index, component_name):
+        return True
+
+    def cdb_download_component_files(self, instance_uri, stage_index, component_name, output_dir):
+        ref = [r for r in self.memo if component_name == 'past-' + r.split('.', 1)[1]][0]
+        ev('cdb-fetch', ref=ref, mode=self.memo[ref])
+        if self.memo[ref] != 'hit':
+            raise IOError('scripted failure while fetching the files of a memoization candidate')
+        with open(os.path.join(output_dir, 'memoized.out'), 'w') as f:
+            f.write('from a past execution')
+
+    def __getattr__(self, name):
+        # anything else the controller may call on its database handle (upserts of documents ...) is accepted silently
+        if name.startswith('__'):
+            raise AttributeError(name)
+        return lambda *a, **k: None
+
+
 def build_controller(scn, location):
     """The recipe of tests/utils.generate_controller_for_flowir, without the initialise() call."""
     import networkx
@@ -321,7 +364,10 @@ def build_controller(scn, location):
         spec = data['componentSpecification']
         job = stage.jobWithName(spec.identification.componentName)
         comps.append(M.workflow.ComponentState(job, exp.experimentGraph, create_engine=True))
-    controller = M.control.Controller(exp, do_restart_sources=scn.do_restart_sources)
+    cdb = None
+    if getattr(scn, 'memo', None):
+        cdb = FakeCDB(scn.memo, comps)
+    controller = M.control.Controller(exp, do_restart_sources=scn.do_restart_sources, cdb=cdb)
     controller._verif_keepalive = comps
     return exp, controller
 
